@@ -74,6 +74,28 @@ def run(ctx):
             ctx.violate("serialised message after header edit #%d differs from the specification encoding of the edited field list" % (step + 1),
                         {"op": op, "impl": impl, "model": model, "first_differing_step": step + 1}, True)
     ctx.oblige("correspondence K:wire/edit (byte-identical serialisation after each edit; decode-encode identity)", "correspondence", ok)
+    # an edit that cannot get the memory it needs must leave the message as it was - valid, and nothing touched (every allocation of every edit fails in turn)
+    olines = []
+    for i in range(300 if ctx.quick() else 6000):
+        m = wiregen.gen_message(rng, max_body_types=2); b = m.marshal()
+        if len(b) <= 600:
+            olines.append("wire oomedit %s %s" % (b.hex(), " ".join(gen_ops(rng))))
+    r = script.diff([exe], olines)
+    ook = r["rc"] == 0 and r["n_impl"] == len(olines)
+    if not ook:
+        ctx.violate("header-edit harness stopped under injected allocation failures: " + r["stderr"][-400:],
+                    {"op": olines[r["n_impl"]] if r["n_impl"] < len(olines) else None, "stderr": r["stderr"][-2000:]}, True)
+    known_unk = 0
+    for (j, op, impl, model, spec) in r["rows"]:
+        ch = [t for t in impl.split() if t.startswith("CHANGED-BY-FAILED-OP")]
+        if ch and all(t.endswith(":unk") for t in ch):
+            known_unk += 1          # (C14's recorded finding: a failed strip of unknown fields has stripped some of them)
+            continue
+        ook = False
+        ctx.violate("a header edit that ran out of memory changed the message (or the message differs from the edited field list afterwards): " + impl[:160],
+                    {"op": op, "impl": impl, "model": model}, True)
+    ctx.oblige("correspondence K:wire/edit under allocation failure (%d messages x edits, every allocation failed in turn: bytes unchanged by a failed edit)" % len(olines),
+               "correspondence", ook)
     ctx.coverage.update({
         "evaluations": len(lines), "distinct_nontrivial": len(set(lines)),
         "rule": "messages from the wire (fields in every order, interleaved unknown fields, both byte orders) x sequences of 1-7 edits: set/replace with values of "
